@@ -32,8 +32,10 @@ pub fn auth_probe(s: &Sim) -> StateObs {
     let cfg = s.w.config();
     let st = s.w.state();
     let sdn = sd();
-    let admin = s.w.admin().unwrap_or_default();
-    let nominee = if st.pending_owner.is_empty() { p20("nom") } else { st.pending_owner.clone() };
+    // roles come from the history of successful operations (reference model), so that an update or a
+    // revocation the contract silently ignores is seen as a privilege that should be gone
+    let admin = s.m.admin.clone();
+    let nominee = s.m.nominee.clone().unwrap_or_else(|| p20("nom"));
     let former = if admin == p20("adm") { p20("former-never-admin") } else { p20("adm") };
     let (hs, hr) = hook_accounts(s);
     let mon = p20("mon");
@@ -42,6 +44,9 @@ pub fn auth_probe(s: &Sim) -> StateObs {
         ("former_admin", former),
         ("nominee", nominee),
         ("monitor", mon),
+        ("monitor2", p20("mon2")),
+        ("monitor3", p20("mon3")),
+        ("former_nominee", p20("nom")),
         ("staker_hook", hs.clone()),
         ("reward_hook", hr.clone()),
         ("contract", contract_addr()),
@@ -56,7 +61,7 @@ pub fn auth_probe(s: &Sim) -> StateObs {
         ("collector_via_other_channel", bech::hook_sender("channel-77", cfg.native_chain_config.reward_collector_address.as_str(), PROTO_PREFIX)),
         ("other_native_account_hook", bech::hook_sender(&cfg.protocol_chain_config.ibc_channel_id, &n20(&s.w.k, "n1"), PROTO_PREFIX)),
     ];
-    let monitors: Vec<String> = cfg.monitors.iter().map(|a| a.to_string()).collect();
+    let monitors: Vec<String> = s.m.monitors.clone();
     let vprefix = cfg.native_chain_config.validator_address_prefix.clone();
     let new_val = bech::addr(&vprefix, "val-new", 20);
     let old_val = cfg.native_chain_config.validators.first().map(|v| v.to_string()).unwrap_or_else(|| new_val.clone());
@@ -66,7 +71,7 @@ pub fn auth_probe(s: &Sim) -> StateObs {
     let only_admin = vec![admin.clone()];
     let mut breaker: Vec<String> = monitors.clone();
     breaker.push(admin.clone());
-    let pending: Vec<String> = if st.pending_owner.is_empty() { vec![] } else { vec![st.pending_owner.clone()] };
+    let pending: Vec<String> = s.m.nominee.iter().cloned().collect();
     // (label, message, funds, authorised principals)
     let mut msgs: Vec<(&str, ExecuteMsg, Vec<(String, u128)>, Vec<String>)> = vec![
         ("AddValidator", ExecuteMsg::AddValidator { new_validator: new_val }, vec![], only_admin.clone()),
